@@ -152,23 +152,46 @@ def run(ctx):
         "injected option taskqueue.VerifInCap (go/overlay/c15_incap.go) and also runs the default capacity (stress)",
     ]
     ctx.assumptions += [
-        "running tasks eventually finish (liveness theorems are 'some step is enabled', termination under a fair "
-        "scheduler is not proved)",
+        "running tasks eventually finish and the Go scheduler does not stop while a goroutine can move (the liveness "
+        "theorem C15.shutdown_returns needs nothing else: no fairness)",
         "Submit is not called with nil and not called after (or concurrently with) Shutdown",
         "workers >= 1 (New replaces smaller values by 1+NumCPU); in-channel capacity >= 1",
     ]
     ctx.lean(props=["Props.C15"], drivers=["drv_c15"])
     ctx.harness("./cmd/c15", overlay={"taskqueue/verif_incap.go": "c15_incap.go"})
     _install(ctx)
-    ctx.diff(area="forced", driver="drv_c15", n={"quick": 9000, "thorough": 150000}, stateful=True,
-             trivial=_trivial, tagger=_tag, canon=lambda o: o, timeout=900,
-             theorem="C15.conservation / exactly_once / running_le_workers / fifo / shutdown_after_all_done / "
-                     "panic_reported_once (Props/C15.lean) hold for every reachable state of the model; on this forced "
-                     "schedule the real queue does not reach the quiescent state the model predicts",
-             what="forced schedule: each line is followed by a wait for quiescence; outputs are the observed sets "
-                  "(st=started, fin=finished, rec=recovery-handler calls, sub=Submit calls returned, sd=Shutdown "
-                  "0 not called/1 waiting/2 returned); `crash:*` = the harness process died on that line")
+    what = ("forced schedule: each line is followed by a wait for quiescence; outputs are the observed sets (st=started, "
+            "fin=finished, rec=recovery-handler calls, sub=Submit calls returned, sd=Shutdown 0 not called/1 waiting/2 "
+            "returned; `id*k` = seen k times); `crash:*` = the harness process died on that line")
+    thm = ("C15.conservation / exactly_once / running_le_workers / fifo / shutdown_after_all_done / panic_reported_once "
+           "/ shutdown_returns (Props/C15.lean) hold for every reachable state of the model; on this forced schedule the "
+           "real queue does not reach the quiescent state the model predicts")
+    ctx.diff(area="forced", driver="drv_c15", n={"quick": 7000, "thorough": 300000}, stateful=True,
+             trivial=_trivial, tagger=_tag, timeout=1500, theorem=thm, what=what)
+    # the same stream on a single P (cooperative scheduling: different interleavings of dispatcher, workers, submitter)
+    if not ctx.replay:
+        ctx.seed += 7777
+        ctx.diff(area="forced", driver="drv_c15", n={"quick": 2500, "thorough": 100000}, stateful=True,
+                 trivial=_trivial, tagger=lambda l, o: "gomaxprocs1:" + _tag(l, o), timeout=1500, theorem=thm,
+                 what=what + " [this stream ran with GOMAXPROCS=1]", extra_env={"GOMAXPROCS": "1"})
+        ctx.seed -= 7777
     _tidy_replays(ctx)
-    ctx.impl_oracle("stress", n={"quick": 160, "thorough": 4000}, label="random stress in child processes, event log "
+    if ctx.replay:
+        _replay_stress(ctx)
+    ctx.impl_oracle("stress", n={"quick": 480, "thorough": 12000}, label="random stress in child processes, event log "
                     "checked: exactly once, Shutdown after all finished, running <= Workers, one worker => submission "
-                    "order, every panic reported once, no hang, no crash", timeout=1500)
+                    "order, every panic reported once, no hang, no crash", timeout=3000)
+
+
+def _replay_stress(ctx):
+    import json
+    rep = json.load(open(ctx.replay))
+    if rep.get("area") != "stress":
+        return
+    outs = ctx.run_impl("stress", rep["ops"]) or []
+    for l, o in zip(rep["ops"], outs):
+        ctx.evals += 1
+        print("replay: `%s` -> %s" % (l, o))
+        if o.startswith("FAIL") or o.startswith("crash") or o == "panic":
+            ctx.violations.append({"kind": "impl-oracle", "what": "replay still fails: " + o[:200], "replay": ctx.replay,
+                                   "concrete": True})
